@@ -128,8 +128,114 @@ let ss_case a =
   let s = "OK " ^ String.concat "|" (List.map (fun st -> "r=ok" ^ pr_s st ^ ";sh=0") sstates) ^ "|leak=0" in
   (m, s)
 
+(* ---- ST::string histories: each C++ operation carries its footprint class in a trailing M= field ---- *)
+let exn_of_name = function
+  | "unicode_error" -> UnicodeError | "codec_error" -> CodecError | "bad_format" -> BadFormat
+  | "out_of_range" -> OutOfRange | "invalid_argument" -> InvalidArgument | "bad_alloc" -> BadAlloc
+  | e -> failwith ("exn " ^ e)
+
+let parse_top (s : string) : top * string =
+  let f = split_on ',' s in
+  let nat k = nat_of_int (int_of_string (List.nth f k)) in
+  let m = List.fold_left (fun acc x -> if String.length x > 2 && String.sub x 0 2 = "M=" then String.sub x 2 (String.length x - 2) else acc) "" f in
+  let mparts = split_on ':' m in
+  let arg = ref "" in
+  let t =
+    match List.hd f, mparts with
+    | "new", _ -> TNew (nat 1, bytes_of_hex (List.nth f 2))
+    | "reads", _ -> TReads (nat 1)
+    | _, ["nrvo"; v] -> TFreshNRVO (nat 1, nat 2, bytes_of_hex v)
+    | _, ["mctor"; v] -> TFreshMoveCtor (nat 1, nat 2, bytes_of_hex v)
+    | _, ["masg"; v] -> TFreshMoveAsg (nat 1, nat 2, bytes_of_hex v)
+    | _, ["empty"] -> TEmpty (nat 1)
+    | _, ["copy"] -> TCopyOf (nat 1, nat 2)
+    | _, ["copymove"] -> TCopyMove (nat 1, nat 2)
+    | "mctor", _ -> TMoveCtor (nat 1, nat 2)
+    | "asg", _ -> TAssign (nat 1, nat 2)
+    | "masg", _ -> TMoveAssign (nat 1, nat 2)
+    | "set", _ -> TSetBytes (nat 1, bytes_of_hex (List.nth f 2))
+    | "append", ["cat"; v] -> TAppend (nat 1, nat 2, bytes_of_hex v)
+    | "clear", _ -> TClear (nat 1)
+    | "del", _ -> TDel (nat 1)
+    | _, "throw" :: e :: temps ->
+        let ts = List.filter (fun x -> x <> "") (match temps with [t] -> split_on '/' t | _ -> []) in
+        (match List.hd f with "setfail" -> arg := ",arg=" ^ List.nth f 2 | _ -> ());
+        TThrowing (List.map bytes_of_hex ts, exn_of_name e)
+    | _ -> failwith ("drv_mem: bad string op " ^ s) in
+  (t, !arg)
+
+let str_case a =
+  let pool = int_of_string (List.nth a 0) in
+  let parsed = List.map parse_top (split_on ';' (List.nth a 1)) in
+  let ops = List.map fst parsed and args = List.map snd parsed in
+  let fail =
+    match a with
+    | [_; _; f] when String.length f > 7 && String.sub f 0 7 = "failat=" ->
+        (match split_on '@' (String.sub f 7 (String.length f - 7)) with
+         | [k; s] -> Some (int_of_string k, int_of_string s) | _ -> None)
+    | _ -> None in
+  let l = int_of_n local_length_char in
+  let lnat = nat_of_int l and pnat = nat_of_int pool in
+  (* with a fault schedule: run the prefix, arm the schedule, run the faulted op, disarm, run the rest *)
+  let run_from st ops = run_thistory lnat ops pnat st in
+  let (steps, stf) =
+    match fail with
+    | None -> run_from store0 ops
+    | Some (k, sidx) ->
+        let rec take n l = if n = 0 then [] else match l with [] -> [] | x :: t -> x :: take (n - 1) t in
+        let rec drop n l = if n = 0 then l else match l with [] -> [] | _ :: t -> drop (n - 1) t in
+        let (s1, st1) = run_from store0 (take sidx ops) in
+        let (s2, st2) = run_from (with_fail st1 (Some (nat_of_int k))) (take 1 (drop sidx ops)) in
+        let (s3, st3) = run_from (with_fail st2 None) (drop (sidx + 1) ops) in
+        (s1 @ s2 @ s3, st3) in
+  let prev = ref (Array.make pool None) in
+  let pr_t args stp =
+    let cur = Array.of_list (List.map (fun x -> x) stp.t_objs) in
+    let body = String.concat "" (List.mapi (fun i ob ->
+      match ob with
+      | None -> Printf.sprintf ";%d=-" i
+      | Some o ->
+          Printf.sprintf ";%d=%s:%d:%d:%s:*" i (hex_of_bytes o.o_units) (int_of_nat o.o_size)
+            (if o.o_term then 1 else 0) (loc_name o.o_loc)) stp.t_objs) in
+    prev := cur;
+    "r=" ^ res_name stp.t_result ^ args ^ body ^ ";sh=" ^ (if stp.t_shares then "1" else "0") in
+  let died = List.find_opt (fun s -> match s.t_result with Abort _ | Fault _ -> true | _ -> false) steps in
+  let rec zip a b = match a, b with x :: xs, y :: ys -> (x, y) :: zip xs ys | _ -> [] in
+  let m =
+    match died with
+    | Some s -> res_name s.t_result
+    | None ->
+        let body = String.concat "|" (List.map (fun (stp, ar) -> pr_t ar stp) (zip steps args)) in
+        (match t_leaked_after_scope lnat pnat stf with
+         | Ok n -> "OK " ^ body ^ "|leak=" ^ string_of_nat n
+         | o -> res_name o) in
+  (* spec: values; const operations and failed operations leave every pre-existing object's bytes, size AND
+     data pointer unchanged (p=1); objects (re)assigned by the step may move (p = any) *)
+  let sstates = spec_thistory ops sstore0 in
+  let prevs = ref sstore0 in
+  let pr_s (st, (t, ar)) =
+    let touched i = match t with
+      | TAssign (o, _) | TSetBytes (o, _) | TAppend (o, _, _) | TClear o -> int_of_nat o = i
+      | TMoveAssign (o, src) -> int_of_nat o = i || int_of_nat src = i
+      | TMoveCtor (_, src) -> int_of_nat src = i
+      | _ -> false in
+    let r = match t with TThrowing (_, e) -> exn_name e | _ -> "ok" in
+    let line = String.concat "" (List.init pool (fun i ->
+      match st (nat_of_int i) with
+      | None -> Printf.sprintf ";%d=-" i
+      | Some Unspecified -> Printf.sprintf ";%d=?" i
+      | Some (Val v) ->
+          let n = List.length v in
+          let p = match !prevs (nat_of_int i) with None -> "n" | Some _ -> if touched i then "*" else "1" in
+          Printf.sprintf ";%d=%s:%d:1:%s:%s" i (hex_of_bytes v) n (if n < l then "L" else "H") p)) in
+    prevs := st;
+    "r=" ^ r ^ ar ^ line ^ ";sh=0" in
+  let s = "OK " ^ String.concat "|" (List.map pr_s (zip sstates parsed)) ^ "|leak=0" in
+  (m, s)
+
 let dispatch op a =
   match op with
+  | "str" -> str_case a
   | "ss" -> ss_case a
   | "buf" -> buf_case a
   | _ -> failwith ("drv_mem: unknown op " ^ op)
